@@ -139,6 +139,20 @@ fn main() {
             11 => run::<[u8; 3]>(&b),
             12 => run::<[(); 1]>(&b),
             13 => run::<[String; 0]>(&b),
+            // decoders that build values of types with validity invariants (a conversion that skips the check is UB)
+            14 => run::<char>(&b),
+            15 => run::<Vec<char>>(&b),
+            16 => run::<String>(&b),
+            17 => run::<Option<String>>(&b),
+            18 => match deserialize::<desert_core::DeduplicatedString>(&b) {
+                Ok(v) => {
+                    std::hint::black_box(format!("{:?}", v.0).len());
+                    true
+                }
+                Err(_) => false,
+            },
+            19 => run::<bool>(&b),
+            20 => run::<Vec<bool>>(&b),
             other => panic!("type {other}"),
         };
         println!("{} {}", i, if ok { "ok" } else { "err" });
